@@ -34,7 +34,8 @@ type c04Case struct {
 
 const c04Rule = "lexers: generated stateful definitions, simple (single-state) lexers, the default text/scanner lexer and configured " +
 	"variants (comments as tokens, newline as token) x inputs rich in \\n, \\r, tabs, 2-4 byte runes, invalid UTF-8 (stateful only), " +
-	"tokens spanning newlines, inputs longer than the scanner's buffer x entry points (string / reader / bytes) x filenames; oracle: " +
+	"tokens spanning newlines, inputs longer than the scanner's buffer x entry points (string / reader / bytes, readers that deliver one byte at a time or their last bytes with io.EOF, " +
+	"a reader already read from, a second live lexer, Parser.Lex of a parser that elides and case-folds) x filenames; oracle: " +
 	"validity predicate computed from the input alone (value == input[off:off+len], increasing non-overlapping offsets, single final EOF " +
 	"at len(input), concatenation == input when nothing is dropped, line/column recomputed from the offset, filename); judged only when " +
 	"lexing succeeds; non-trivial = >=2 lines, >=1 multi-byte rune and >=3 tokens; distinct by SHA-256 of the case"
